@@ -1034,7 +1034,11 @@ def run(ctx):
             dist['skipped']['baseline-error'] = dist['skipped'].get('baseline-error', 0) + 1; ctx.count(('count', lines1[i]), False); continue
         if d.get('nd') == '1':       # results vary between identical never-interrupted calls: the harness compares against the SET of such results
             dist.setdefault('self-varying', {})[c['op']] = dist.setdefault('self-varying', {}).get(c['op'], 0) + 1
-        ks = choose_ks(d['N'], cap if not c.get('big') else (2 if ctx.quick else 8), ctx.rng)
+        # time budget per case: an interrupted run plus a full re-run plus a leak check per k
+        ms = int(d.get('ms', '0') or 0)
+        kmax = max(24, int((45000 if ctx.quick else 150000) / (2.2 * ms + 12)))
+        ks = choose_ks(d['N'], min(cap, kmax) if not c.get('big') else (2 if ctx.quick else 8), ctx.rng)
+        if len(ks) < min(d['N'], cap): dist.setdefault('sub-sampled', {})[c['op']] = dist.setdefault('sub-sampled', {}).get(c['op'], 0) + 1
         plan.append((i, c, ks))
     # ---------------- phase 2: fault enumeration, one child process per case
     def work(item):
